@@ -251,7 +251,7 @@ def parseKV (tok : String) : List (String × String) :=
     | _ => none)
 
 def parseWorld : List String → Option (World × List String)
-  | "W" :: dir :: hashing :: nextId :: clock :: files :: tracked :: hashes :: jobs :: rest =>
+  | "W" :: dir :: hashing :: be :: nextId :: clock :: files :: tracked :: hashes :: jobs :: rest =>
     let fs := (unlist files).filterMap (fun kv => match kv.splitOn "=" with
       | [k, v] => some (unh k, nat! v)
       | _ => none)
@@ -260,7 +260,8 @@ def parseWorld : List String → Option (World × List String)
         let ds : List String := if deps.isEmpty then [] else (deps.splitOn "+").map unh
         some (Job.mk (unh jid) (jobStOfName st) ds (unh name))
       | _ => none)
-    some (World.mk (unh dir) fs (parseKV tracked) (parseKV hashes) js (nat! nextId) (nat! clock) (bool! hashing), rest)
+    let bk : Backend := match be with | "sge" => .sge | "lsf" => .lsf | "local" => .localPool | _ => .slurm
+    some (World.mk (unh dir) fs (parseKV tracked) (parseKV hashes) js (nat! nextId) (nat! clock) (bool! hashing) bk, rest)
   | _ => none
 
 def parseWTs : Nat → List String → List WT → Option (List WT × List String)
@@ -313,18 +314,26 @@ def worldCmd (cmd : String) (w : World) (wf : List WT) (args : List String) : St
     (match w.plan wf (pats ps) with
      | .error e => "err " ++ e.name
      | .ok subs => "ok would=" ++ ",".intercalate (subs.map (fun s => toh (nameOf wf s.1))))
-  | "run", [ps] =>
-    (match w.plan wf (pats ps), w.run wf (pats ps) with
-     | .ok subs, .ok w' =>
+  | "run", [ps, lim] =>
+    (match w.plan wf (pats ps) with
+     | .error e => "err " ++ e.name
+     | .ok subs0 =>
+       let subs := match lim.toNat? with | some k => subs0.take k | none => subs0
+       let w' := subs.foldl (fun w s => w.submit wf s.1 s.2) w
        let subsShown := subs.map (fun s => toh (nameOf wf s.1) ++ ":" ++ "+".intercalate (s.2.map (fun d => toh (nameOf wf d))))
        "ok subs=" ++ ";".intercalate subsShown ++ " tracked=" ++ showKV w'.tracked ++ " hashes=" ++ showKV w'.hashes
-         ++ " jobs=" ++ showJobs w'.jobs
-     | .error e, _ => "err " ++ e.name
-     | _, .error e => "err " ++ e.name)
+         ++ " jobs=" ++ showJobs w'.jobs)
   | "touch", [ps] =>
     (match w.touch wf (pats ps) with
      | .error e => "err " ++ e.name
      | .ok w' => "ok files=" ++ showFiles w'.files ++ " hashes=" ++ showKV w'.hashes)
+  | "touchstatus", [ps] =>
+    (match w.touch wf (pats ps) with
+     | .error e => "err " ++ e.name
+     | .ok w' =>
+       (match w'.status wf with
+        | .error e => "err " ++ e.name
+        | .ok rows => "ok rows=" ++ ",".intercalate ((sortPairs rows).map (fun p => toString p.1 ++ ":" ++ p.2.name))))
   | "clean", [all, ps] =>
     (match w.clean wf (pats ps) (bool! all) with
      | .error e => "err " ++ e.name
